@@ -148,7 +148,7 @@ def _onestep(case, V, sit, cnt, keys):
             return
         for c, (sx, sy, f) in zip(calls, stages):
             _bump(sit, "velocity_requests_checked")
-            if abs(c[2] - f) > 1e-12:
+            if not (abs(c[2] - f) <= 1e-12):
                 V.append(C.viol(f"{scheme}: stage evaluated at fractional step {c[2]}, scheme prescribes {f}", **desc))
                 return
             if len(c[3]) == npart:
@@ -159,7 +159,7 @@ def _onestep(case, V, sit, cnt, keys):
                 d = np.max(np.hypot(c[3][sel] - sx[active][sel], c[4][sel] - sy[active][sel])) if sel.any() else 0.0
             else:
                 d = 0.0  # another selection of particles: only the resulting positions are judged
-            if d > 1e-12:
+            if not (d <= 1e-12):
                 V.append(C.viol(f"{scheme}: velocity requested {d:.3g} cells away from the stage position of the scheme (fraction {f})", **desc))
                 return
         X1 = np.where(active, X1, Xb)
@@ -167,7 +167,7 @@ def _onestep(case, V, sit, cnt, keys):
         ok = ok | ~active
         err = np.max(np.hypot(state.X[ok] - X1[ok], state.Y[ok] - Y1[ok])) if ok.any() else 0.0
         cnt["particle_steps_compared"] = cnt.get("particle_steps_compared", 0) + int(ok.sum())
-        if err > 1e-12:
+        if not (err <= 1e-12):
             i = int(np.argmax(np.hypot(state.X - X1, state.Y - Y1) * ok))
             V.append(C.viol(f"{scheme}: new position differs from the scheme's by {err:.3g} cells (particle at ({Xb[i]:.4f},{Yb[i]:.4f}) -> ({state.X[i]:.6f},{state.Y[i]:.6f}), "
                             f"expected ({X1[i]:.6f},{Y1[i]:.6f}))", **desc))
@@ -280,13 +280,13 @@ def _helper(case, V, sit, cnt, keys):
         if np.any(cacheU != 3.0e-4) or np.any(cacheV != -2.0e-4):
             V.append(C.viol(f"analytical.get_velocity{p} changed the arrays its sample function returned (sample function that {label})"))
             return
-        if label == "returns cached arrays" and (np.max(np.abs(U_ - 3.0e-4)) > 1e-18 or np.max(np.abs(V_ + 2.0e-4)) > 1e-18):
+        if label == "returns cached arrays" and (not (np.max(np.abs(U_ - 3.0e-4)) <= 1e-18) or not (np.max(np.abs(V_ + 2.0e-4)) <= 1e-18)):
             V.append(C.viol(f"analytical.get_velocity{p} in a uniform field ({3.0e-4}, {-2.0e-4}) returned ({U_[0]}, {V_[0]})"))
             return
         if label == "returns its arguments":
             # dx/dt = y, dy/dt = x, step 0.5: compare with the scheme evaluated on copies
             X1r, Y1r, _st, _uv = ref.scheme_step({1: "EF", 2: "RK2", 4: "RK4"}[p], lambda x, y, t: (np.array(y), np.array(x)), X0, Y0, 0.0, 0.5, 1.0, 1.0) if (p != 2 or s_par == 0.5) else (None, None, None, None)
-            if X1r is not None and (np.max(np.abs(X0 + 0.5 * U_ - X1r)) > 1e-9 or np.max(np.abs(Y0 + 0.5 * V_ - Y1r)) > 1e-9):
+            if X1r is not None and (not (np.max(np.abs(X0 + 0.5 * U_ - X1r)) <= 1e-9) or not (np.max(np.abs(Y0 + 0.5 * V_ - Y1r)) <= 1e-9)):
                 V.append(C.viol(f"analytical.get_velocity{p} with sample(x, y) = (y, x): step differs from the scheme's by {np.max(np.abs(X0 + 0.5 * U_ - X1r)):.3g}"))
                 return
     dt0, n0 = 1200, 8
@@ -393,7 +393,7 @@ def _e2e(case, wd, V, sit, cnt, keys):
             return  # somebody left the grid: void for this property
         err = float(np.max(np.hypot(r.vars["X"] - X, r.vars["Y"] - Y)))
         cnt["e2e_positions_compared"] = cnt.get("e2e_positions_compared", 0) + npart
-        if err > 1e-9:
+        if not (err <= 1e-9):
             k = int(np.argmax(np.hypot(r.vars["X"] - X, r.vars["Y"] - Y)))
             V.append(C.viol(f"{scheme} end to end: record {n} position ({r.vars['X'][k]:.8f},{r.vars['Y'][k]:.8f}) differs by {err:.3g} cells from the scheme applied to the "
                             f"(exactly representable) linear field ({X[k]:.8f},{Y[k]:.8f})", **desc))
